@@ -206,7 +206,8 @@ pub fn build_target_with<F: FnOnce(&mut Builder, &mut Rng)>(rng: &mut Rng, cfg: 
         b.thread(ThreadKind::Exiter, Some(b"exiter".to_vec()));
     }
     for k in 0..cfg.fds {
-        b.spec.fds.push(match rng.below(7) {
+        b.spec.fds.push(match rng.below(8) {
+            7 => FdSpec::DeadProcDir,
             0 => FdSpec::File { path: format!("{dir}/fd file {k}") },
             1 => FdSpec::DeletedFile { path: format!("{dir}/fd-del-{k}") },
             2 => FdSpec::Dir { path: dir.clone() },
